@@ -670,7 +670,9 @@ func runC16(seed int64, tier string, sc *Script, withBody bool) map[string]any {
 	pool := []string{"repository:a:pull", "repository:a:push", "repository:a:push,pull", "repository:a:*", "repository:a-b:pull",
 		"repository:b:pull,pull", "registry:catalog:*", "repository:a:", "repository:a:,", "a", "x:y", "t:n:m:act", "repository:a:pull,*", ":n:a", "r::a",
 		// resource names that contain colons (a registry host:port prefix): the actions are what follows the last colon
-		"repository:h:5000/a:pull", "repository:h:5000/a:push", "repository:h:5000/a:*", "t:n:m:other"}
+		"repository:h:5000/a:pull", "repository:h:5000/a:push", "repository:h:5000/a:*", "t:n:m:other",
+		// a wildcard next to an empty action (a stray comma): the wildcard still absorbs the rest
+		"repository:a:pull,*,", "repository:a:*,,pull,push", "repository:a:,*", "repository:b:,pull"}
 	emit := func(l []string) {
 		got := auth.CleanScopes(append([]string(nil), l...))
 		in, out := "-", "-"
